@@ -107,6 +107,7 @@ def run(ctx):
     ctx.setcount('reachable_classes', len(reach))
     ctx.setcount('branches', len(w.branches))
     ctx.setcount('visit_sites', sum(len(b.sites) for b in w.branches))
+    check_replace_table(ctx, w, model)
 
     # -- a replacement is recognised by `is not None` or by truthiness: in the second case no node class may be falsy ----------------------------
     truthy_sites = []
@@ -438,6 +439,61 @@ def run(ctx):
     ctx.floor('visit_sites', 34)
     ctx.floor('child_field_pairs', 45)
     ctx.floor('order_classes', 15)
+
+
+def check_replace_table(ctx, w, model):
+    """query_traversal itself interpreted (sa/interp.py) on one node of every dispatched class whose list-valued field holds three leaves, with a callback that
+    replaces every subset of them: afterwards the field holds, position by position, the replacement where one was returned and the original element where not -
+    nothing dropped, nothing duplicated, nothing reordered - and every leaf was offered to the callback exactly once."""
+    import itertools
+    from ..interp import Interp, Obj, Raised, Env
+    from ..walker import WALKER_FILE
+    isa = model.isa_table()
+    rows = skipped = 0
+    for b in w.branches:
+        if b.classes == ['<list>']:
+            continue
+        attrs = {n.attr for st in b.body for n in ast.walk(st) if isinstance(n, ast.Attribute) and isinstance(n.value, ast.Name) and n.value.id == w.node}
+        list_fields = {s_.field for s_ in b.sites if s_.shape in ('elem', 'projection', 'value')}
+        for s_ in b.sites:
+            if s_.shape != 'elem' or s_.sub is not None or s_.projection is not None:
+                continue
+            for cls in b.classes:
+                for subset in [c for r in range(4) for c in itertools.combinations(range(3), r)]:
+                    leaves = [Obj('Constant', value=i, alias=None, parentheses=False) for i in range(3)]
+                    repl = {id(leaves[i]): Obj('Constant', value=f'r{i}', alias=None, parentheses=False) for i in subset}
+                    node = Obj(cls, **{a: ([] if a in list_fields else None) for a in attrs})
+                    node.attrs[s_.field] = list(leaves)
+                    offered = []
+
+                    def cb(n, **kw):
+                        offered.append(n)
+                        return repl.get(id(n))
+                    it = Interp.for_file(ctx.src, WALKER_FILE, isa, {})
+                    try:
+                        it.call_function(w.fn, [node, cb], {}, Env())
+                    except (Raised, AnalysisError, TypeError, AttributeError):          # elements of this field are not plain nodes (rows, pairs, columns)
+                        skipped += 1
+                        break
+                    rows += 1
+                    got = node.attrs.get(s_.field)
+                    want = [repl.get(id(x), x) for x in leaves]
+                    ok = isinstance(got, (list, tuple)) and len(got) == 3 and all(a is b_ for a, b_ in zip(got, want))
+                    once = all(sum(1 for o in offered if o is x) == 1 for x in leaves)
+                    shown = [getattr(x, 'value', x) for x in got] if isinstance(got, (list, tuple)) else got
+                    ctx.ob('C13.replace-exact', f'{cls}.{s_.field}:table:replaced={list(subset)}', ok,
+                           f'{cls}.{s_.field} = [0, 1, 2] with the callback replacing the element(s) {list(subset)}: the field holds {shown} afterwards, expected '
+                           f'{[getattr(x, "value", x) for x in want]} - an element the callback does not replace stays where it is', file=w.file, line=s_.call.lineno,
+                           witness='a IN (?, 10, ?) bound with [1, 2]')
+                    ctx.ob('C13.visit-once', f'{cls}.{s_.field}:table:replaced={list(subset)}', once,
+                           f'{cls}.{s_.field}: the callback is offered the elements {[getattr(o, "value", None) for o in offered if o is not node]} - every element exactly once',
+                           file=w.file, line=s_.call.lineno)
+                else:
+                    continue
+                break
+    ctx.setcount('replace_table_rows', rows)
+    ctx.floor('replace_table_rows', 8 * 8)
+    ctx.note(f'replace table: {rows} rows interpreted, {skipped} (class, field) pairs whose elements are not plain nodes left to the structural rules')
 
 
 def walker_users(ctx):
